@@ -11,6 +11,7 @@ func init() {
 const subMu = "protocol/sub.socket.Mutex"
 
 func runC06(p *Prog, r *Report) {
+	crossCutting(p, r, "C06.X", "protocol/sub", "protocol/xsub", "protocol/xpub")
 	lockBalance(p, r, "C06.8/E1", "protocol/sub", "protocol/xsub", "protocol/xpub")
 	q := NewQ(p, r)
 	R := "C06.1/matching"
